@@ -2843,7 +2843,7 @@ class TLSConnection(TLSRecordLayer):
 
         self._cert_requests[context] = certificate_request
 
-        for result in self._sendMsg(certificate_request):
+        for result in self._send_post_handshake_msg(certificate_request):
             yield result
 
     @staticmethod
